@@ -969,7 +969,7 @@ theorem dropW_ok {cfg : Cfg} (R : Repaired cfg) (i : Nat) : ∀ (n : Nat) (st : 
     unfold dropAll.dropW
     by_cases hh : heldW st i = true
     · simp only [hh, if_true]
-      obtain ⟨st1, hu, inv1, hsz, hfr, hle, hmono⟩ := unrefW_ok R inv hh
+      obtain ⟨st1, hu, inv1, hsz, hfr, hle, hmono, _⟩ := unrefW_ok R inv hh
       simp only [hu, bind_ok]
       obtain ⟨st2, h2, inv2, L2, hd⟩ := dropW_ok R i n st1 inv1 (by omega)
       exact ⟨st2, h2, inv2, WLater.trans ⟨hsz, hfr, hmono⟩ L2, hd⟩
